@@ -424,11 +424,21 @@ def judge_declarative(spec, res):
     try:
         plain = create_schematic({"unit": spec["unit"], "elements": copy.deepcopy(spec["elements"])})
         circ = circuit_translator(plain)
-        sch = create_schematic(copy.deepcopy(spec))
+        # one description object rendered twice: the second rendering is the one judged below (a description is a
+        # value -- rendering it must not consume or rewrite its solution section), and both must show the same texts
+        given = copy.deepcopy(spec)
+        first = create_schematic(given)
+        sch = create_schematic(given)
         _close_figures()
     except Exception as e:
         add_violation(res, "declarative_solution_section", case0, "an annotated schematic", "%s: %s" % (type(e).__name__, e), "create_schematic raised", kind="exception:" + type(e).__name__)
         return
+    bump(res["hits"], "declarative_rendered_twice")
+    if given != spec:
+        add_violation(res, "declarative_rendered_twice", case0, spec["solution"], given.get("solution"), "create_schematic modified the description it was given")
+    texts = [[label_text(e) for e in x.elements if type(e) in (elm.VoltageLabel, elm.CurrentLabel, elm.PowerLabel) or isinstance(e, elm.LabelNode)] for x in (first, sch)]
+    if texts[0] != texts[1]:
+        add_violation(res, "declarative_rendered_twice", case0, texts[0], texts[1], "rendering the same description a second time shows different annotations")
     ref = DCSolution(circuit=circ) if s["type"] in ("dc", "real") else ComplexSolution(circuit=circ, w=s.get("w", 0.0))
     form = "real" if s["type"] in ("dc", "real") else "complex"
     opts = {"polar": s.get("polar", False), "deg": s.get("deg", False)}
@@ -460,7 +470,7 @@ def _close_figures():
 
 def vacuity(agg, tier):
     out = []
-    for k in ("label_value_voltage", "label_value_current", "label_value_power", "label_value_potential", "reverse_negates", "forms_agree", "declarative_solution_section"):
+    for k in ("label_value_voltage", "label_value_current", "label_value_power", "label_value_potential", "reverse_negates", "forms_agree", "declarative_solution_section", "declarative_rendered_twice"):
         if agg["hits"].get(k, 0) == 0:
             out.append("sub-check %s never fired" % k)
     return out
